@@ -24,6 +24,8 @@ pub enum Handlers {
     Threads(Vec<u64>),
     /// one thread collects `k` requests, then answers them in the given order
     Collect(usize, Vec<usize>),
+    /// `k` receiver threads, each takes one request and holds it until all are held
+    Park(usize),
 }
 
 pub struct CtlCase {
@@ -34,6 +36,8 @@ pub struct CtlCase {
     pub end: EndKind,
     pub handlers: Handlers,
     pub fresh: bool, // afterwards, a fresh connection must be served
+    /// clients that connect and reset before being accepted, ahead of the real client
+    pub vanish_first: usize,
 }
 
 fn hdrs_enc(hs: &[(Vec<u8>, Vec<u8>)]) -> String {
@@ -223,18 +227,69 @@ pub fn execute(c: &CtlCase, cfg: &Config) -> Outcome {
     let handlers = c.handlers.clone();
     let fresh = c.fresh;
     let write_err = c.write_err;
+    let vanish_first = c.vanish_first;
     let (out, rep) = sched::run(cfg, move || {
         let server = Arc::new(Server::http("127.0.0.1:0").expect("server"));
         let addr = server.server_addr().to_ip().unwrap();
         let log: Log = Arc::new(StdMutex::new(vec![]));
         let received = Arc::new(std::sync::atomic::AtomicUsize::new(0));
-        let client = verif_rt::net::TcpStream::connect(addr).expect("connect");
+        for _ in 0..vanish_first {
+            let _ = verif_rt::net::TcpStream::connect_and_vanish(addr);
+        }
+        if vanish_first > 0 {
+            sched::settle(1_000_000_000);
+        }
+        let client = match verif_rt::net::TcpStream::connect(addr) {
+            Ok(c) => c,
+            Err(_) => {
+                // the server stopped accepting: report it as a failed fresh connection
+                return Outcome { delivered: vec![], results: vec![], wire: vec![], eof: true, reset: false, hang: false, fresh_ok: Some(false),
+                                 received: 0, panicked: false, aborted: false, writes: vec![], holdwire: None };
+            }
+        };
         let cport = client.local_addr().unwrap().port();
         if let Some((after, kind)) = write_err {
             client.fail_peer_writes_after(after, kind);
         }
         // ---- application
-        {
+        if let Handlers::Park(k) = &handlers {
+            let k = *k;
+            let held = Arc::new(std::sync::atomic::AtomicUsize::new(0));
+            for t in 0..k {
+                let server = server.clone();
+                let log = log.clone();
+                let received = received.clone();
+                let script = script.clone();
+                let held = held.clone();
+                verif_rt::thread::spawn_named(&format!("recv{}", t), move || {
+                    let rq = match server.recv() {
+                        Ok(rq) => rq,
+                        Err(_) => return,
+                    };
+                    received.fetch_add(1, std::sync::atomic::Ordering::SeqCst);
+                    let idx = {
+                        let mut l = log.lock().unwrap();
+                        l.push(Rec { head: head_of(&rq, cport), body: vec![], rend: "none", result: None });
+                        l.len() - 1
+                    };
+                    held.fetch_add(1, std::sync::atomic::Ordering::SeqCst);
+                    // hold the request until every receiver has one (or nothing moves any more)
+                    let mut spins = 0;
+                    while held.load(std::sync::atomic::Ordering::SeqCst) < k && spins < 50 {
+                        stdx::thread::sleep(Duration::from_millis(100));
+                        spins += 1;
+                    }
+                    // answer by position in the pipeline (requests carry their index in the url: /a<i>)
+                    let pos = rq.url().trim_start_matches("/a").parse::<usize>().unwrap_or(idx);
+                    let a = if script.is_empty() {
+                        Action { as_reader: 0, read_total: 0, buf: 1, delay_ms: 0, fin: Finish::Drop, zero_read: false }
+                    } else {
+                        script[std::cmp::min(pos, script.len() - 1)].clone()
+                    };
+                    handle(rq, a, idx, log.clone());
+                });
+            }
+        } else {
             let server = server.clone();
             let log = log.clone();
             let received = received.clone();
@@ -276,6 +331,7 @@ pub fn execute(c: &CtlCase, cfg: &Config) -> Outcome {
                                 handle(rq, a, i, l);
                             });
                         }
+                        Handlers::Park(_) => unreachable!(),
                         Handlers::Collect(k, order) => {
                             // the body is asked for / read at once; the answer comes later
                             let mut rq = rq;
